@@ -440,9 +440,33 @@ def rule_budget(report, prog, res, rule='C19-R4'):
         report.check(okk, rule, key(f.qname, 'LEN = payload + 1, start byte F0 only at 106A'), f.loc(), 'frame encoding changed')
 
 
+def rule_idle_delay(report, prog, rule='C19-R1'):
+    """How long this side may stay silent is bounded by the link timeout it announced itself (send-lto); the peer's LTO (recv-lto)
+    only says how long to wait for the peer.  Every deliberate delay of the run loops -- the `delay` given to collect() -- read through
+    single-assignment locals is a constant or derives from the local LTO, never from `recv-lto` / the receive timeout (with a peer
+    that announced a long timeout the local side would answer later than the LTO it promised)."""
+    from ..q import through_locals
+    n = 0
+    for name in ('run_as_initiator', 'run_as_target'):
+        f = prog.func(L + '.LogicalLinkController.' + name)
+        for c in walk_no_nested(f.node):
+            if isinstance(c, ast.Call) and norm(c.func) == 'self.collect':
+                arg = next((k.value for k in c.keywords if k.arg == 'delay'), c.args[0] if c.args else None)
+                if arg is None:
+                    continue
+                n += 1
+                text = through_locals(f.node, arg)
+                okk = isinstance(try_const(arg), (int, float)) or ('recv' not in text and ('send-lto' in text or isinstance(try_const(through_locals(f.node, arg, as_node=True)), (int, float))))
+                report.check(okk, rule, key(f.qname, 'idle delay is a constant or derives from the local link timeout'), f.loc(c),
+                             '%s waits `%s` before it answers: the delay derives from the peer\'s link timeout (recv-lto), the bound on local '
+                             'silence is the timeout this side announced (send-lto)' % (name, text))
+    report.floor(rule + ' idle delays', n, 2)
+
+
 def run(report, prog, tier):
     res = Resolver(prog)
     rule_provenance(report, prog)
+    rule_idle_delay(report, prog)
     rule_tables(report, prog)
     rule_passthrough(report, prog)
     rule_budget(report, prog, res)
